@@ -6,6 +6,8 @@ CONSTANTS
   ColumnMemo = "process-wide, keyed by rowid"
   ParserScope = "per call"
   ScanMemo = "none"
+  OperandScope = "per call"
+  SubqueryColumns = "per table object"
   JobSet = "memo"
 INIT Init
 NEXT Next
